@@ -476,3 +476,73 @@ func (p *Program) extendedDecodeTable() map[string]types.Type {
 	})
 	return out
 }
+
+// checkWrapperNotTakenForPacket (C02.R9, C09.R7, C14.R8): the dispatchers carry a request as an orderedRequest — a struct
+// that embeds the requestPacket interface, and therefore itself satisfies every interface the packet satisfies.  Handing
+// the wrapper (instead of its embedded packet) to code that asks "which packet is this?" compiles and answers "none of
+// them": a type switch on it never matches a packet type, a marker-interface assertion never holds.  No value of a
+// wrapper type is converted to an interface in library code (methods promoted through the wrapper are called on it
+// directly, which needs no conversion).
+func checkWrapperNotTakenForPacket(c *Ctx, rule string) {
+	p := c.P
+	// the interfaces of this package that a struct type embeds
+	embeddedOf := func(t types.Type) []types.Type {
+		n := namedOf(t)
+		if n == nil || n.Obj().Pkg() != p.Sftp.Pkg {
+			return nil
+		}
+		st, ok := n.Underlying().(*types.Struct)
+		if !ok {
+			return nil
+		}
+		var out []types.Type
+		for i := 0; i < st.NumFields(); i++ {
+			if f := st.Field(i); f.Embedded() && types.IsInterface(f.Type()) {
+				if en := namedOf(f.Type()); en != nil && en.Obj().Pkg() == p.Sftp.Pkg {
+					out = append(out, f.Type())
+				}
+			}
+		}
+		return out
+	}
+	isWrapper := func(t types.Type) bool { return len(embeddedOf(t)) > 0 }
+	// the conversion could have been made from the embedded packet alone: the wrapper adds nothing the target needs
+	viaEmbedded := func(from, to types.Type) bool {
+		it, ok := to.Underlying().(*types.Interface)
+		if !ok || it.NumMethods() == 0 {
+			return false
+		}
+		for _, e := range embeddedOf(from) {
+			if types.Implements(e, it) {
+				return true
+			}
+		}
+		return false
+	}
+	nWrappers := 0
+	for _, name := range p.Sftp.Pkg.Scope().Names() {
+		if tn, ok := p.Sftp.Pkg.Scope().Lookup(name).(*types.TypeName); ok && isWrapper(tn.Type()) {
+			nWrappers++
+		}
+	}
+	c.check(nWrappers >= 2, rule, "wrapper types", "?", fmt.Sprintf("%d struct types embed an interface", nWrappers), "the ordering wrappers (orderedRequest, orderedResponse) were not found")
+	ord := map[string]int{}
+	for _, fn := range p.LibFuncs() {
+		if outermost(fn).Pkg != p.Sftp {
+			continue
+		}
+		eachInstr(fn, func(in ssa.Instruction) {
+			mi, ok := in.(*ssa.MakeInterface)
+			if !ok || !isWrapper(mi.X.Type()) || !viaEmbedded(mi.X.Type(), mi.Type()) {
+				return
+			}
+			k := fnName(fn) + ": " + typeName(mi.X.Type()) + " as " + typeName(mi.Type())
+			ord[k]++
+			key := k
+			if ord[k] > 1 {
+				key = fmt.Sprintf("%s #%d", k, ord[k])
+			}
+			c.bad(rule, key, p.Pos(in.Pos()), "the "+typeName(mi.X.Type())+" wrapper is passed where a "+typeName(mi.Type())+" is expected: it satisfies the interface through the packet it embeds, but it is none of the packet types — a type switch or a marker-interface test on it matches nothing (pass the embedded packet)")
+		})
+	}
+}
